@@ -52,6 +52,17 @@ def run_case(case):
     o = dict(GridSize=n, StepsPerTs=steps, DampingTime=td, rotations=periods, outstep=max(1, int(periods * steps / nrec)),
              VacuumGap=0.0, InitialDistZoom=z, InterpolationPoints=case["it"], derivation=case["deriv"], FPType=fpt,
              RenormalizeCharge=case["renorm"])
+    if case.get("offset") and not case.get("nb2"):
+        # the same relaxation for a bunch that does not start on the origin (start distribution read from a file): the
+        # sizes are central moments, a rotating centre of charge must not leak into them (round-9 seed C04i measures the
+        # energy spread about the mean POSITION)
+        dq0, dp0 = case["offset"]
+        delta0 = 12.0 / (n - 1)
+        ax = -6.0 + np.arange(n) * delta0
+        Q0, P0 = np.meshgrid(ax, ax, indexing="ij")
+        dens0 = np.exp(-((Q0 - dq0) ** 2 + (P0 - dp0) ** 2) / (2 * z * z)) / (2 * np.pi * z * z)
+        cli.mkds(os.path.join(wd, "start.h5"), "/PhaseSpace/data", dens0.astype(np.float32)[None, None])
+        o["InitialDistFile"] = "start.h5"
     if case.get("nb2"):
         # "the bunch length and energy spread converge": of every bunch - the last bunch of a two-bunch fill is judged
         # (without impedance the bunches are independent; round-7 seed C04g carries only the first one through the
@@ -67,7 +78,7 @@ def run_case(case):
         o["StepsPerRevolution"] = float(steps * d0["fs"] / d0["frev"])
         o["StepsPerTs"] = int(case["via_rev"])
     h, msg = run_one(o, wd, "r.h5")
-    cls = (["two_bunches"] if case.get("nb2") else []) + (["steps_per_revolution"] if case.get("via_rev") else []) + (["off_via_dampingtime"] if case.get("off_via_td") else []) + ["fpt%d" % fpt, "d%d" % case["deriv"], "it%d" % case["it"], "n%d" % n,
+    cls = (["displaced_start"] if case.get("offset") and not case.get("nb2") else []) + (["two_bunches"] if case.get("nb2") else []) + (["steps_per_revolution"] if case.get("via_rev") else []) + (["off_via_dampingtime"] if case.get("off_via_td") else []) + ["fpt%d" % fpt, "d%d" % case["deriv"], "it%d" % case["it"], "n%d" % n,
            "zoom<0.3" if z < 0.3 else ("zoom<0.75" if z < 0.75 else ("zoom>1.25" if z > 1.25 else "zoom~1"))]
     if h is None:
         return Outcome(False, True, cls, msg, sig="c04:runfail")
@@ -159,6 +170,8 @@ def cases(draw, fast=True):
              renorm=draw(st.sampled_from([-1, 0, 0, 50])), K=5.0)
     if draw(st.integers(0, 4)) == 0:
         c["nb2"] = True
+    elif draw(st.integers(0, 4)) == 0 and z <= 1.5:
+        c["offset"] = [float(draw(st.sampled_from([-0.8, -0.4, 0.5, 0.9]))), float(draw(st.sampled_from([-0.6, 0.0, 0.3, 0.7])))]
     if draw(st.integers(0, 5)) == 0:
         c["via_rev"] = draw(st.sampled_from([10, 100, 1000, 3000]))
     if fpt == 3 and draw(st.integers(0, 3)) == 0:
